@@ -107,9 +107,9 @@ protected:
 	int volume;
 	int mask;
 
-	static uint enveloptable[16][64];
+	uint enveloptable[16][64];	// per instance: derived from EmitTable
 	static uint noisetable[noisetablesize];
-	static int EmitTable[32];
+	int EmitTable[32];			// per instance: depends on SetVolume()
 };
 
 #endif // PSG_H
